@@ -137,6 +137,11 @@ class DirectSimulation(BaseSimulation):
     def _run(self, n_runs: int):
         """Run assuming perfect measurement."""
 
+        # Discard the entries of a trial that was interrupted before it was
+        # counted, so that the result lists always have length n_runs.
+        for key in ['effective_error', 'success', 'codespace']:
+            del self._results[key][self._results['n_runs']:]
+
         for i_run in range(n_runs):
             shot = run_once(
                 self.code, self.error_model, self.decoder,
